@@ -1,7 +1,9 @@
 (* Proc -- model of the process layer of psutil (shared by C01 and C02):
    psutil/__init__.py  Process._init, _get_ident, __eq__, __hash__, _raise_if_pid_reused,
                        is_running, ppid, create_time, nice/ionice/rlimit/cpu_affinity (set forms),
-                       _send_signal, send_signal/suspend/resume/terminate/kill, process_iter, pids, boot_time
+                       _send_signal, send_signal/suspend/resume/terminate/kill, process_iter, pids, boot_time,
+                       oneshot (nesting, the ppid memo), as_dict(attrs=["ppid"]), Popen.__init__ (child present)
+   psutil/_common.py   memoize_when_activated (cache_activate/deactivate, exceptions not memoized)
    psutil/_pslinux.py  Process.create_time, nice_set, ionice_set, rlimit, cpu_affinity_set,
                        _get_eligible_cpus, ppid, wrap_exceptions, boot_time, pids
    transcribed from the code as it is in /repo now (after 32d3689, 5d0422d, a4fac6f, 7214dea).
